@@ -11,6 +11,7 @@ import (
 	parser "github.com/acekingke/yaccgo/Parser"
 )
 
+var warnAnyRe = regexp.MustCompile(`(?im)^.*(warning|conflic).*$`)
 var warnRe = regexp.MustCompile(`warning: has the conflic (\d+), sym (\d+), conflict Type (\w+), (\w+)  use default resolve`)
 
 func classify(err error, pv interface{}) (string, string) {
@@ -106,6 +107,8 @@ func dumpCore(w *bufio.Writer, c Case) {
 	for _, m := range warnRe.FindAllStringSubmatch(out, -1) {
 		fmt.Fprintf(w, "WARN %s %s %s %s\n", m[1], m[2], m[3], m[4])
 	}
+	// any line that looks like a conflict warning, whatever its exact wording
+	fmt.Fprintf(w, "WARNANY %d\n", len(warnAnyRe.FindAllString(out, -1)))
 	for qi, row := range v.GTable {
 		fmt.Fprintf(w, "ROW %d %s\n", qi, ints(row))
 	}
